@@ -288,7 +288,7 @@ def gen_case(ctx):
     k = rng.choice([1, 2, 3, 5, 8, 13, 20, 40])
     fam = rng.choice(["grid", "dyadic", "touching", "longoverlap", "negative", "offset"])
     labels = rng.choice([cases.LABELS_SMALL, cases.LABELS_WORDS, ["only"], cases.LABELS_NUM])
-    name = rng.choice(["Ref", "annotator_9", "zed"])
+    name = rng.choice(["Ref", "annotator_9", "zed", "annotator_1"])
     while True:
         cspec = cases.gen_continuum(rng, n_annot=1, sizes=[k], family=fam, labels=labels, names=[name])
         us = [u for u in cspec["ann"][name] if u[1] - u[0] >= 1.0]
@@ -301,9 +301,14 @@ def gen_case(ctx):
         cspec["ann"][name] = [list(x) for x in sorted({tuple(u) for u in cspec["ann"][name]}, key=cases.unit_key)]
     m = rng.choice([0.0, 1.0, 1.0, rng.random(), rng.random(), rng.random()])
     annotators = rng.choice([1, 2, 3, 5, ["x", "y"], ["b", "a", "c"], ["Martino", "Martingale"]])
+    homonym = False
+    if rng.random() < 0.15:
+        # one of the generated annotators bears the reference annotator's own name (legal as long as the reference itself is not included)
+        annotators = [name, "other"] if rng.random() < 0.5 else ["a", name, "z"]
+        homonym = True
     extra = rng.choice([None, None, ["extra1"], ["zz", "a"]]) if not unlabelled else None
     return {"reference": cspec, "magnitude": m, "annotators": annotators, "extra_categories": extra,
-            "include_ref": rng.random() < 0.5, "np_seed": rng.randrange(2 ** 31),
+            "include_ref": (rng.random() < 0.5) and not homonym and name not in expected_names(annotators), "np_seed": rng.randrange(2 ** 31),
             "then_magnitude": rng.choice([None, 0.0, 0.0, rng.random()]),
             "annotators_as": rng.choice(["list", "list", "tuple", "generator", "iter", "map"] if isinstance(annotators, list)
                                         else ["int", "int", "np.int64", "np.int32"]),
